@@ -24,8 +24,8 @@ META = dict(
           'carry a sentence, for D) built to completion, final pairs == required closure. '
           'A case = (logic, shape, context, interpretation); non-trivial = distinct (logic, shape, context) and frame cases.'),
     assumptions=['REF-SEM semantics (vlib/ref/sem.py), incl. lattice reading of the FDE family',
-                 'components are atoms A, B / monadic Fx: exactness for arbitrary components follows by compositionality of REF-SEM'],
-    min_events={'any': {'shapes_with_expansion': 2000, 'interpretations_checked': 20000, 'frame_cases': 2000, 'logics': 52}},
+                 'components are atoms A, B, their negations (truth-functional shapes) / monadic Fx: exactness for arbitrary components follows by compositionality of REF-SEM'],
+    min_events={'any': {'shapes_with_expansion': 5000, 'interpretations_checked': 20000, 'frame_cases': 2000, 'logics': 52}},
     budget=dict(quick=1500, thorough=7200),
     unit_timeout=dict(quick=900, thorough=3000),
 )
@@ -43,13 +43,19 @@ def shapes(S, desig):
         modal = oname in syn.MODAL
         if modal and not S.modal:
             continue
-        body = syn.op(oname, A) if arity == 1 else syn.op(oname, A, B)
-        for negated in (False, True):
-            if oname == 'Negation' and not negated:
-                continue
-            s = syn.neg(body) if negated else body
-            for d in ds:
-                yield ('modal' if modal else 'oper'), s, d
+        # components: atoms, and (for the truth-functional operators) negated atoms -- a rule that un-negates a component
+        # where it should negate it is exact on atoms but not where double negation is not the identity (G3, P3)
+        variants = [(A, B)]
+        if not modal and oname != 'Negation':
+            variants += [(syn.neg(A), B), (A, syn.neg(B)), (syn.neg(A), syn.neg(B))] if arity == 2 else [(syn.neg(A), B)]
+        for ca, cb in variants:
+            body = syn.op(oname, ca) if arity == 1 else syn.op(oname, ca, cb)
+            for negated in (False, True):
+                if oname == 'Negation' and not negated:
+                    continue
+                s = syn.neg(body) if negated else body
+                for d in ds:
+                    yield ('modal' if modal else 'oper'), s, d
     if S.quantified:
         for q in syn.QUANTIFIERS:
             body = syn.quant(q, x, Fx)
